@@ -205,6 +205,20 @@ CHECKS = {
         BASE_NOTE + 'SQLAlchemy 2.0, sqlite 3.40, duckdb 1.5, pandas (reader level) execute the parser output.',
         'DESIGN.md section 5 C06',
     ),
+    'C16': (
+        'Rocq proof over a labelled transition system of the serving core (invariant by induction over arbitrary schedules, progress measure, descriptor-cache interleavings) + replay of the real engine\'s instrumented scheduling traces as runs of the model',
+        'PARTIAL (model scope). Proved for every batch and EVERY schedule of the agents (event loop, extract threads, any number '
+        'of workers per executor, executor result threads, respond pool): a caller only ever receives the outcome of its own payload '
+        'on the instance its application selects or its own platform error (never crossed); a given answer is never changed or '
+        'repeated (never duplicated); while a request is unanswered some step is enabled and every step strictly decreases a measure '
+        '<= 8N, so every schedule that keeps moving answers every caller (never lost); a failing request only changes its own phase '
+        '(fails alone); the descriptor cache never refuses an existing application under any interleaving of any number of threads '
+        '(the pre-fix code did - witness kept; fixed in /repo). Tied to the code by running real batches through the real Engine '
+        '(real processes and queues) and replaying the FORML_VERIF-guarded scheduling trace step by step in the model. Outside the '
+        'model: process start-up/shutdown, queue time-outs, a worker dying on a non-forml exception (stops its executor), the pyfunc runner interior.',
+        BASE_NOTE + 'multiprocessing (spawn + fork, manager queues), asyncio and CLOCK_MONOTONIC ordering of trace events across processes; the FORML_VERIF trace hook in prediction.py.',
+        'DESIGN.md section 5 C16',
+    ),
     'C07': (
         'Rocq proof characterising the mirrored construction-time validation rule by rule + differential correspondence on conforming statements and single-rule mutants',
         'Theorems (Properties/C07.v) for every statement: a query / join / set is constructible iff the documented rules hold '
@@ -264,9 +278,9 @@ def main():
         'setup_cmd': 'cd /verif && ./check --setup',
         'hooks': {
             'guard': 'FORML_VERIF',
-            'enable': 'no hooks in /repo: every observation is made through public constructors, subclassing or harness-side stubs (FORML_VERIF=1 is exported by ./check but read by nothing in /repo)',
+            'enable': 'one hook in /repo (forml/runtime/_service/prediction.py _verif_trace, used by C16 only): with FORML_VERIF=1 and FORML_VERIF_TRACE=<file> the prediction executor appends its scheduling events (submit / take / finish / deliver) to the file; ./check exports both for the C16 driver subprocesses; nothing is rebuilt (pure Python). Every other observation is made through public constructors, subclassing or harness-side stubs',
             'baseline_off_cmd': 'cd /repo && /venv/bin/python -m pytest -ra -q -p no:cacheprovider --timeout=900 --continue-on-collection-errors',
-            'source_commits': [],  # no hook commits; fix: commits are listed in known_findings.json
+            'source_commits': ['596f6a2'],  # fix: commits are listed in known_findings.json
             'add_only': True,
         },
         'engines': [
